@@ -184,3 +184,17 @@ Example C08_intsize_example :
   intsize 0xFFFFF = 3 /\ intsize 0x100000 = 3 /\ intsize 0xFFFFFF = 3 /\ intsize 0x1000000 = 4 /\
   headsize 55 = 1 /\ headsize 56 = 2 /\ headsize (3 * 2 ^ 20) = 4.
 Proof. vm_compute. repeat split; reflexivity. Qed.
+
+(* ---------- header errors are sticky ---------- *)
+(* after Kind reported an error other than EOL, any sequence of Kind / Bytes / Raw / Uint / Bool / List calls
+   returns that same error each time and leaves the stream (reader position included) exactly where it was *)
+Theorem C08_stream_error_sticky : forall s e s1 ops,
+  s_kind s = (SErr e, s1) -> e <> SEOL -> forallb asks_kind ops = true ->
+  run ops s1 = (map (fun _ => BErr (serr_code e)) ops, s1).
+Proof. exact stream_error_sticky. Qed.
+Print Assumptions C08_stream_error_sticky.
+
+Example C08_stream_sticky_example :
+  fst (run [OKind; OKind; OList; OBytes; ORaw; OUint 8] (new_stream (unhex "f810c401020304"%string) 0)) =
+    [BErr 4; BErr 4; BErr 4; BErr 4; BErr 4; BErr 4].
+Proof. vm_compute. reflexivity. Qed.
